@@ -24,7 +24,29 @@ type c18Replay struct {
 	What    string   `json:"what,omitempty"`
 }
 
+// c18Reads collects the keys read and the cursor traffic from a call log.
+func c18Reads(rp *c18Replay, log []call) {
+	for _, cl := range log {
+		switch cl.Op {
+		case "Get":
+			rp.Gets = append(rp.Gets, cl.Key)
+		case "Next":
+			if !cl.Nil {
+				rp.Nexts = append(rp.Nexts, cl.Key)
+			}
+		case "Cursor", "Seek":
+			rp.Cursors++
+		}
+	}
+}
+
 func c18Case(e *emitter, pred string, univ [][2]string, batch bool, B int) {
+	c18CaseF(e, pred, univ, batch, B, false)
+}
+
+// with faults: the same statement once more for every storage call of the fault-free run, that
+// call failing -- whatever the statement then does (fail, go on), what it reads stays pinned
+func c18CaseF(e *emitter, pred string, univ [][2]string, batch bool, B int, faults bool) {
 	query := "select * where " + pred
 	sel, err := parseWhere(pred)
 	if err != nil {
@@ -57,20 +79,28 @@ func c18Case(e *emitter, pred string, univ [][2]string, batch bool, B int) {
 		e.count("drain_error")
 		return
 	}
-	for _, cl := range st.log {
-		switch cl.Op {
-		case "Get":
-			rp.Gets = append(rp.Gets, cl.Key)
-		case "Next":
-			if !cl.Nil {
-				rp.Nexts = append(rp.Nexts, cl.Key)
-			}
-		case "Cursor", "Seek":
-			rp.Cursors++
-		}
-	}
+	c18Reads(&rp, st.log)
 	e.count("scan=" + obs.kind)
 	e.add(fmt.Sprintf("Case %s %s %s %s %d", term, obs.region, coqStrList(rp.Gets), coqStrList(rp.Nexts), rp.Cursors), rp, obs.kind != "FULL")
+	if !faults || obs.kind == "FULL" {
+		return
+	}
+	for k := range st.log {
+		fs := newStore(univ)
+		fs.faultAt = k
+		frp := c18Replay{Query: query, Mode: fmt.Sprintf("batch=%v B=%d, storage call %d (%s) fails", batch, B, k, st.log[k].Op), Region: obs.region}
+		func() {
+			defer func() { _ = recover() }()
+			kvql.PlanBatchSize = B
+			fplan, ferr := kvql.NewOptimizer(query).BuildPlan(fs)
+			if ferr == nil {
+				drainPlan(fplan, batch, runResult{})
+			}
+		}()
+		c18Reads(&frp, fs.log)
+		e.count("faulted_run")
+		e.add(fmt.Sprintf("Case %s %s %s %s %d", term, obs.region, coqStrList(frp.Gets), coqStrList(frp.Nexts), frp.Cursors), frp, true)
+	}
 }
 
 func runC18(c *runCtx) error {
@@ -83,7 +113,7 @@ func runC18(c *runCtx) error {
 	header := "From Coq Require Import List String.\nFrom KV Require Import Base.Bytes Model.Ast Model.FilterOpt Corr.C18.\nImport ListNotations.\nOpen Scope string_scope.\n" +
 		"Definition univ : list bytes := " + coqStrList(keys) + ".\nDefinition mismatches := mismatches_with univ.\n"
 	e := newEmitter(c.out, "C18", header, 600)
-	e.m.Rule = "canonical key-pinning shapes (key = l, l = key, key in (..), key ^= l, key > >= < <= l and mirrored, key between l1 and l2) over all literal choices from {a, ab, b, ba, c}, alone, AND-ed pairwise and AND-ed with opaque predicates, drained row-at-a-time and in batches (B in {1, 3, 32}); non-trivial = the access path is not a full scan"
+	e.m.Rule = "canonical key-pinning shapes (key = l, l = key, key in (..), key ^= l, key > >= < <= l and mirrored, key between l1 and l2) over all literal choices from {a, ab, b, ba, c}, alone, AND-ed pairwise and AND-ed with opaque predicates, drained row-at-a-time and in batches (B in {1, 3, 32}); the single shapes once more for every storage call of the run, that call failing; non-trivial = the access path is not a full scan"
 	var atoms []string
 	for _, l := range lits {
 		atoms = append(atoms, fmt.Sprintf("key = %s", q(l)), fmt.Sprintf("%s = key", q(l)), fmt.Sprintf("key ^= %s", q(l)),
@@ -102,7 +132,7 @@ func runC18(c *runCtx) error {
 	n := 0
 	for _, a := range atoms {
 		for _, m := range modes {
-			c18Case(e, a, univ, m.batch, m.B)
+			c18CaseF(e, a, univ, m.batch, m.B, true)
 		}
 		for _, o := range opaque {
 			m := modes[n%len(modes)]
